@@ -593,6 +593,21 @@ func (b *BaseStore) Load(ctx context.Context, amount int) error {
 
 			span.AddEvent("store-heads-joining")
 			if _, inErr = oplog.Join(l, size); inErr != nil {
+				// the join refuses the whole log when one of its entries is refused. A load
+				// follows next and refs again, down to entries the replicator had refused
+				// when they were first fetched: the entries that had been merged then must
+				// not be lost with them now
+				if kept, ok := b.acceptedEntriesOnly(l); ok {
+					size = amount
+					if size > 0 && size > oplog.Len()+joinable(oplog, kept) {
+						size = -1
+					}
+
+					_, inErr = oplog.Join(kept, size)
+				}
+			}
+
+			if inErr != nil {
 				span.AddEvent("store-heads-joining-failed")
 				// err = fmt.Errorf("unable to join log: %w", err)
 				// TODO: log
@@ -844,7 +859,15 @@ func (b *BaseStore) LoadFromSnapshot(ctx context.Context) error {
 	}
 
 	if _, err = b.OpLog().Join(log, -1); err != nil {
-		return fmt.Errorf("unable to join log: %w", err)
+		// see Load: one refused entry must not take the whole snapshot down with it
+		kept, ok := b.acceptedEntriesOnly(log)
+		if !ok {
+			return fmt.Errorf("unable to join log: %w", err)
+		}
+
+		if _, err = b.OpLog().Join(kept, -1); err != nil {
+			return fmt.Errorf("unable to join log: %w", err)
+		}
 	}
 
 	if err := b.updateIndex(ctx); err != nil {
@@ -919,6 +942,48 @@ func (b *BaseStore) ownEntriesOnly(l *ipfslog.IPFSLog) (*ipfslog.IPFSLog, error)
 		IO:               b.options.IO,
 		Entries:          entry.NewOrderedMapFromEntries(own),
 	})
+}
+
+// acceptedEntriesOnly returns a log made of the entries of l that pass the checks a join
+// makes (write access, signature); ok is false when none or all of them do, or when the log
+// cannot be built
+func (b *BaseStore) acceptedEntriesOnly(l *ipfslog.IPFSLog) (*ipfslog.IPFSLog, bool) {
+	identityProvider := b.Identity().Provider
+	if identityProvider == nil {
+		return nil, false
+	}
+
+	entries := l.GetEntries().Slice()
+
+	accepted := make([]ipfslog.Entry, 0, len(entries))
+	for _, e := range entries {
+		if err := b.AccessController().CanAppend(e, identityProvider, &CanAppendContext{log: l}); err != nil {
+			continue
+		}
+
+		if err := e.Verify(identityProvider, b.IO()); err != nil {
+			continue
+		}
+
+		accepted = append(accepted, e)
+	}
+
+	if len(accepted) == 0 || len(accepted) == len(entries) {
+		return nil, false
+	}
+
+	kept, err := ipfslog.NewLog(b.IPFS(), b.Identity(), &ipfslog.LogOptions{
+		ID:               l.GetID(),
+		AccessController: b.AccessController(),
+		SortFn:           b.SortFn(),
+		IO:               b.options.IO,
+		Entries:          entry.NewOrderedMapFromEntries(accepted),
+	})
+	if err != nil {
+		return nil, false
+	}
+
+	return kept, true
 }
 
 func intPtr(i int) *int {
